@@ -110,19 +110,22 @@ def monResidual (t2k : Option Int) (cap : Int) (graphs : List (List GNode))
 def qualifies (c : Cfg α) (tiers : List Nat) (eps : List (Ep α)) (e : Ep α) : Bool :=
   visible c.owner e && passes c.θ e && tiers.any (fun t => decide (t ≤ 2) && tierOk c eps e t)
 
-/-- With distinct episode ids: fewer than `k` hits ⇒ every qualifying episode was returned. -/
+/-- Fewer than `k` hits ⇒ every qualifying episode's id was returned (ids may repeat in the memory:
+`_rank_by_cosine` keeps one entry per id before the cut). -/
 def monComplete (c : Cfg α) (tiers : List Nat) (eps : List (Ep α)) (hits : List (Hit α)) : Bool :=
-  !(nodupB (eps.map (·.id))) || decide (c.k ≤ (hits.length : Int))
+  decide (c.k ≤ (hits.length : Int))
     || eps.all (fun e => !(qualifies c tiers eps e) || hits.any (fun h => h.id == e.id))
 
-/-- Index level (one tier): ranked by `(−score, id)`, and a qualifying episode is missing only
-when `k` better-or-equal ones were returned. -/
+/-- Index level (one tier): ranked by `(−score, id)`; for a qualifying episode, a copy of its id that
+sorts no later is returned, or `k` better-or-equal ones were returned. -/
 def monSearch (c : Cfg α) (tier : Nat) (eps : List (Ep α)) (hits : List (Hit α)) : Bool :=
   pairwiseB (fun a b => keyLe (Num.neg a.score, a.id) (Num.neg b.score, b.id)) hits
-    && (!(nodupB (eps.map (·.id))) || eps.all (fun e =>
-          !(qualifies c [tier] eps e) || hits.any (fun h => h.id == e.id)
+    && eps.all (fun e =>
+          !(qualifies c [tier] eps e)
+            || hits.any (fun h => h.id == e.id
+                  && keyLe (Num.neg h.score, h.id) (Num.neg e.cos, e.id))
             || (decide (c.k ≤ (hits.length : Int))
-                && hits.all (fun h => keyLe (Num.neg h.score, h.id) (Num.neg e.cos, e.id)))))
+                && hits.all (fun h => keyLe (Num.neg h.score, h.id) (Num.neg e.cos, e.id))))
 
 /-- Fewer than `max cap 0` nudges ⇒ every labelled active node whose lower-cased label occurs in a
 used hit is represented (by a node with the same lower-cased label). -/
